@@ -307,6 +307,9 @@ fn input_bytes(prep: &Prepared, plan: &CabiPlan) -> Vec<u8> {
 }
 
 pub struct RunOutcome {
+    /// fault-free control call of the same kind with an ample window, made right after a
+    /// faulted call: once faults stop the wrappers must serve normally again
+    pub followup: Option<RawOutcome>,
     pub raw: Option<RawOutcome>,
     pub input_len: usize,
     pub input_is_intact: bool,
@@ -331,6 +334,7 @@ pub fn execute(prep: &Prepared, plan: &CabiPlan) -> RunOutcome {
         // damaged object that zstd still accepts: not executed (see engine_blob)
         d.u64(0x5419);
         return RunOutcome {
+            followup: None,
             raw: None,
             input_len: input.len(),
             input_is_intact,
@@ -346,7 +350,20 @@ pub fn execute(prep: &Prepared, plan: &CabiPlan) -> RunOutcome {
     for s in raw.sites.iter() {
         d.u64(*s);
     }
+    let faulted_plan = plan.panic_at.is_some() || plan.stdout_full || plan.input_op != StoreOp::Intact || raw.status != 0;
+    let followup = if faulted_plan {
+        let f = match plan.call {
+            Call::Compress => raw_call(Call::Compress, &prep.file, prep.bound + 64, None, false),
+            Call::Decompress => raw_call(Call::Decompress, &prep.blob, prep.file.len() + 64, None, false),
+        };
+        d.u64(f.status as u64);
+        d.bytes(&f.out);
+        Some(f)
+    } else {
+        None
+    };
     RunOutcome {
+        followup,
         raw: Some(raw),
         input_len: input.len(),
         input_is_intact,
@@ -376,6 +393,25 @@ pub fn judge(prep: &Prepared, plan: &CabiPlan, out: &RunOutcome) -> Option<(Stri
             "panic_not_reported".into(),
             format!("an internal panic was injected at {:?} but {} returned status {}", plan.panic_at.map(|p| site_of(p.0)), name, raw.status),
         ));
+    }
+    if let Some(f) = &out.followup {
+        // service after the fault: a fault-free call with an ample window right after the faulted one
+        let good = match plan.call {
+            Call::Compress => f.status == 0 && f.canary_ok && f.out == prep.blob,
+            Call::Decompress => f.status == 0 && f.canary_ok && f.out == prep.file,
+        };
+        if !good {
+            return Some((
+                "service_degraded_after_fault".into(),
+                format!(
+                    "after a faulted call ({}), a fault-free {} with an ample window returned status {} / {} bytes instead of the fault-free result",
+                    if raw.injected_fired { "injected internal panic" } else if plan.stdout_full { "failing stdout" } else if plan.input_op != StoreOp::Intact { "damaged or foreign input" } else { "undersized window" },
+                    name,
+                    f.status,
+                    f.out.len()
+                ),
+            ));
+        }
     }
     let faulted = raw.injected_fired || plan.stdout_full;
     match plan.call {
@@ -495,6 +531,27 @@ pub fn replay_doc(prep: &Prepared, gen: Option<(u64, u64, &str)>, plan: &CabiPla
 
 fn job_workload(master: u64, job: u64, tier: Tier) -> Vec<u8> {
     let mut rng = Rng::new(derive(master ^ 0xcab1, job));
+    if tier == Tier::Thorough && job == 0 {
+        // the 128 MiB bound: a signature-free file whose expanded form (version byte, chunk tag,
+        // 4 byte varint, content) is exactly 134217728 bytes
+        let len = 128 * 1024 * 1024 - 6;
+        let mut f = Vec::with_capacity(len);
+        let pat = b"the quick brown fox jumps over the lazy dog 0123456789\n";
+        while f.len() < len {
+            let n = (len - f.len()).min(pat.len());
+            f.extend_from_slice(&pat[..n]);
+        }
+        for b in f.iter_mut() {
+            if matches!(*b, 0x78 | 0x50 | 0x1f | 0x49) {
+                *b = b'_';
+            }
+        }
+        return f;
+    }
+    if job % 16 == 5 {
+        let len = rng.range(660_000, 1_000_000) as usize;
+        return workload::gen_incompressible(&mut rng, len);
+    }
     let sc = match (tier, job % 10) {
         (Tier::Quick, _) => workload::SMALL,
         (Tier::Thorough, 0..=5) => workload::SMALL,
@@ -573,6 +630,9 @@ impl Engine for CabiEngine {
             "probe.injected_panic_fired",
             "probe.compress_between_need_and_bound_failed",
         ]
+        .into_iter()
+        .chain(if _tier == Tier::Thorough { vec!["probe.expanded_form_exactly_128MiB"] } else { vec![] })
+        .collect()
     }
 
     fn run_job(&self, ctx: &JobCtx) -> JobResult {
@@ -619,6 +679,10 @@ impl Engine for CabiEngine {
             res.bump("workloads_with_zip_member");
         }
         let mut rng = Rng::new(derive(ctx.master_seed ^ 0xcab12, ctx.job));
+        let huge = prep.file.len() > 64 * 1024 * 1024;
+        if huge {
+            res.bump("probe.expanded_form_exactly_128MiB");
+        }
         let s = prep.blob.len();
         let b = prep.bound;
         let f = prep.file.len();
@@ -746,6 +810,14 @@ impl Engine for CabiEngine {
             plans.push(p);
         }
 
+        if huge {
+            // only the round trip at the bound and a few windows: every call moves 128 MiB
+            plans.clear();
+            plans.push(mk(Call::Compress, b + 64));
+            plans.push(mk(Call::Decompress, f));
+            plans.push(mk(Call::Decompress, f + 1));
+            plans.push(mk(Call::Decompress, f - 1));
+        }
         let mut digest = Digest::default();
         digest.u64(prep.wl_hash);
         let mut seen: HashSet<u64> = HashSet::new();
